@@ -47,7 +47,7 @@ PROPERTIES["C12"] = dict(
     ],
 )
 
-INFER_FILES = ["inference/zz_verif_c05.go", "inference/zz_verif_c05l2.go", "inference/zz_verif_c06.go", "inference/zz_verif_c04.go", "inference/zz_verif_c15.go", "inference/zz_verif_registry.go",
+INFER_FILES = ["inference/zz_verif_c05.go", "inference/zz_verif_c05l2.go", "inference/zz_verif_c06.go", "inference/zz_verif_c04.go", "inference/zz_verif_c15.go", "inference/zz_verif_c08.go", "inference/zz_verif_registry.go",
                "annotation::annotation/zz_verif_export.go"]
 
 PROPERTIES["C05"] = dict(
@@ -255,5 +255,21 @@ PROPERTIES["C09"] = dict(
     assumptions=COMMON_ASSUMPTIONS + ["go/types contract used by the stubs: (*Interface).Method enumerates the complete method set sorted by name; (*Func).FullName names the declaring type; (*Named).String is the qualified name; LookupFieldOrMethod finds the struct's method by name (validated by the native replay against the real type checker)"],
     runs=[
         dict(pkg="assertion/affiliation", files=["affiliation/zz_verif_c09.go"], entry="Harness_C09", args=dict(sample_every=5, max_samples=40)),
+    ],
+)
+
+PROPERTIES["C08"] = dict(
+    explanation="K1: symx executes assertiontree.FilterTriggersForErrorReturn from SSA on <=N triggers spread over return statements; what the nilability callback answers for each error producer is a "
+                "symbolic value, so which of the four cases (nil / non-nil / mixed / unknown) applies is a solver-decided fork and the deletion/rewrite of every trigger is compared with the convention's "
+                "specification. K2: Engine.ObservePackage (steps 1-4, both inference rounds, the producer-nilability callback) on the triggers of `return nil, e2()` + a contracted callee + a dereference, in every arrival order.",
+    bounds=dict(quick="K1: <=3 triggers over 2 return statements, 3 consumer kinds, symbolic producer nilability; K2: 6 triggers, all 720 orders, value result incorporated in the first or the second round",
+                thorough="K1: <=4 triggers over 2 return statements"),
+    outside=["classification of return expressions (isErrorReturnNil/Nonnil), rich-check effects and the caller side (err != nil guards): AST / assertion-tree code inside C01's core",
+             "the documented design choice that an undetermined error site counts as non-nil (ObservePackage's comment; a stated false negative, not asserted against)", "ok-returning functions"],
+    assumptions=COMMON_ASSUMPTIONS + ["K2 stubs primitivizer.site/fullTrigger as in C05 L2 (validated natively)"],
+    runs=[
+        dict(pkg="inference", files=INFER_FILES, entry="Harness_C08_Filter",
+             quick=dict(params=dict(STMTS=2, N=3)), thorough=dict(params=dict(STMTS=2, N=4)), args=dict(sample_every=97)),
+        dict(pkg="inference", files=INFER_FILES, entry="Harness_C08_Rounds", args=dict(sample_every=97)),
     ],
 )
